@@ -18,11 +18,11 @@ fn space_for(tier: Tier) -> (Space, usize) {
     let mut s = Space::new();
     match tier {
         Tier::Quick => {
-            s.ast("AN", 5, 64);
+            s.ast("AN", 5, 64).ast("ANU", 3, 64);
             (s, 4)
         }
         Tier::Thorough => {
-            s.ast("AN", 5, 64);
+            s.ast("AN", 5, 64).ast("ANU", 4, 64);
             (s, 5)
         }
     }
@@ -54,7 +54,11 @@ impl Check for C12 {
         let (sp, maxlen) = space_for(ctx.tier);
         let (seg, lo, hi) = sp.locate(chunk);
         let scope_name = space::seg_scope_name(seg);
-        let inputs = all_strings(&['a', '\n', '\r'], maxlen);
+        let sigma = match &seg.kind {
+            space::SegKind::Ast { scope, .. } => crate::gen::scope(scope).sigma,
+            _ => unreachable!(),
+        };
+        let inputs = all_strings(&sigma, maxlen);
         let inputs_c: Vec<Vec<char>> = inputs.iter().map(|s| s.chars().collect()).collect();
         space::for_each_text(seg, lo, hi, &mut |_i, text| {
             let parsed = match common::ref_valid(text, ctx) {
@@ -65,9 +69,10 @@ impl Check for C12 {
                 return;
             }
             out.shape = parsed.ast.shape();
-            for flags in FLAGS {
+            let dialects: &[bool] = if text.contains('^') || text.contains('$') || text.contains("(?:") { &[false] } else { &[false, true] };
+            for (flags, xsd) in FLAGS.iter().flat_map(|f| dialects.iter().map(move |d| (*f, *d))) {
                 let fl = Fl::parse(flags);
-                let re = match common::compile(text, flags, false) {
+                let re = match common::compile(text, flags, xsd) {
                     Compiled::Ok(re) => re,
                     Compiled::Rejected => {
                         out.inc("rejected_valid");
@@ -97,7 +102,7 @@ impl Check for C12 {
                             if g != want {
                                 out.fail(
                                     "C12",
-                                    &Case::new(&scope_name, text, flags).input(inp).api("is_match"),
+                                    &Case::new(&scope_name, text, flags).xsd(xsd).input(inp).api("is_match"),
                                     if g { "WrongTrue" } else { "WrongFalse" },
                                     &want.to_string(),
                                     &g.to_string(),
@@ -118,7 +123,7 @@ impl Check for C12 {
                     if let Out::Ok(an) = imp::analyze(&re, inp) {
                         let got = imp::spans_from_analyze(&an);
                         let mut pos = 0usize;
-                        let case = Case::new(&scope_name, text, flags).input(inp).api("analyze");
+                        let case = Case::new(&scope_name, text, flags).xsd(xsd).input(inp).api("analyze");
                         for (st, en) in &got {
                             let ok = *st >= pos
                                 && matches!(sem.lang_leftmost(&parsed.ast, pos), Some((l, _)) if l == *st)
